@@ -87,6 +87,25 @@ def main():
         fl = r.uniform(-1e6, 1e6) * 10 ** r.randint(-20, 20)
         check("repr_float", eval(repr(fl)) == fl and str(fl) == repr(fl), fl)
         check("repr_str", eval(repr(anys)) == anys, anys)
+        # lemma schemas of the scanner acceptance contracts
+        n9 = r.randint(1, 9)
+        kk = r.randint(0, 10 ** n9 - 1)
+        tokd = specs.pad(kk, n9)
+        hd, rs = rnd_str(r, ALPHA, 0, 4), rnd_str(r, ALPHA, 0, 4)
+        check("digit_chars", specs.digit_chars(tokd, n9) and specs.digit_chars(anys, len(anys) or 1), tokd)
+        check("chars_at", specs.chars_at(hd + tokd + rs, hd, tokd, n9, rs), (hd, tokd, rs))
+        check("leading_zeros", specs.leading_zeros(tokd, n9), tokd)
+        check("digits_only", specs.digits_only(tokd, "-") and specs.digits_only(tokd, "."), tokd)
+        check("nat_shift", int(tokd + "0" * (9 - n9)) == kk * 10 ** (9 - n9), tokd)
+        check("split_first", specs.split_first(anys) and specs.split_first(tokd), anys)
+        check("last_of", specs.last_of(hd, tokd) and specs.last_of(anys, rs), (hd, tokd))
+        check("strip_noop", specs.strip_noop(anys) and specs.strip_noop(tokd + rs), anys)
+        check("substr_at", (hd + tokd + rs)[len(hd):len(hd) + len(tokd)] == tokd, (hd, tokd, rs))
+        check("head_of", (not tokd) or (tokd + rs)[0] == tokd[0], tokd)
+        check("ljust", tokd.ljust(9, "0") == tokd + "0" * (9 - n9), tokd)
+        pcs = [rnd_str(r, "09-:Z+", 0, 3) for _ in range(r.randint(1, 5))]
+        check("find_in", specs.find_in(":", *pcs) and specs.find_in("-", *pcs), pcs)
+        check("rfind_in", specs.rfind_in(":", *pcs) and specs.rfind_in("-", *pcs), pcs)
         # character classes used by the char models
         ch = chr(r.choice([r.randint(0, 127), r.randint(128, 0x2FFF)]))
         if ord(ch) < 128:
